@@ -191,6 +191,7 @@ def run_job(job):
             shutil.rmtree(sdir)
         os.makedirs(sdir)
         for rel, text in job["settings"].items():
+            os.makedirs(os.path.dirname(os.path.join(sdir, rel)), exist_ok=True)
             with open(os.path.join(sdir, rel), "w") as f:
                 f.write(text)
         argv += ["--default-settings", sdir]
